@@ -96,6 +96,19 @@ impl Scope {
     }
 }
 
+/// What the evaluation of an element sees around it, other than the elements recorded
+/// so far: variables and defaults in scope, the settings, the previous element and the
+/// position in the random sequence.
+#[derive(Clone)]
+pub struct Surroundings {
+    scope_stack: Vec<Scope>,
+    rng: Pcg32,
+    prev_element: Option<SvgElement>,
+    prev_original: Option<SvgElement>,
+    config: TransformConfig,
+    local_style_id: Option<String>,
+}
+
 pub struct TransformerContext {
     /// Current state of given element; may be updated as processing continues
     elem_map: HashMap<String, SvgElement>,
@@ -136,8 +149,18 @@ pub struct TransformerContext {
     pub local_style_id: Option<String>,
     /// The previous element as written (before its attributes were evaluated)
     prev_original: Option<SvgElement>,
+    /// Number of times the previous element has been set
+    prev_count: u64,
     /// Config of transformer processing; updated by <config> elements
     pub config: TransformConfig,
+}
+
+impl Surroundings {
+    /// The same surroundings with another previous element (as evaluated, as written)
+    pub fn with_prev(mut self, prev: (Option<SvgElement>, Option<SvgElement>)) -> Self {
+        (self.prev_element, self.prev_original) = prev;
+        self
+    }
 }
 
 impl Default for TransformerContext {
@@ -156,6 +179,7 @@ impl Default for TransformerContext {
             rng: RefCell::new(Pcg32::seed_from_u64(0)),
             local_style_id: None,
             prev_original: None,
+            prev_count: 0,
             current_depth: 0,
             real_svg: false,
             in_specs: false,
@@ -385,6 +409,38 @@ impl TransformerContext {
         self.config = config;
     }
 
+    pub fn surroundings(&self) -> Surroundings {
+        Surroundings {
+            scope_stack: self.scope_stack.clone(),
+            rng: self.rng.borrow().clone(),
+            prev_element: self.prev_element.clone(),
+            prev_original: self.prev_original.clone(),
+            config: self.config.clone(),
+            local_style_id: self.local_style_id.clone(),
+        }
+    }
+
+    /// The position in the random sequence
+    pub fn rng_state(&self) -> Pcg32 {
+        self.rng.borrow().clone()
+    }
+
+    pub fn set_rng_state(&mut self, rng: Pcg32) {
+        self.rng.replace(rng);
+    }
+
+    /// Replace the surroundings, returning what they were.
+    pub fn set_surroundings(&mut self, new: Surroundings) -> Surroundings {
+        Surroundings {
+            scope_stack: std::mem::replace(&mut self.scope_stack, new.scope_stack),
+            rng: self.rng.replace(new.rng),
+            prev_element: std::mem::replace(&mut self.prev_element, new.prev_element),
+            prev_original: std::mem::replace(&mut self.prev_original, new.prev_original),
+            config: std::mem::replace(&mut self.config, new.config),
+            local_style_id: std::mem::replace(&mut self.local_style_id, new.local_style_id),
+        }
+    }
+
     pub fn set_events(&mut self, events: Vec<InputEvent>) {
         self.events = events;
     }
@@ -610,6 +666,17 @@ impl TransformerContext {
     pub fn set_prev_element(&mut self, el: &SvgElement) {
         self.prev_element = Some(el.clone());
         self.prev_original = None;
+        self.prev_count += 1;
+    }
+
+    /// How many times the previous element has been set so far
+    pub fn prev_count(&self) -> u64 {
+        self.prev_count
+    }
+
+    /// The previous element: as evaluated, and as written
+    pub fn prev_elements(&self) -> (Option<SvgElement>, Option<SvgElement>) {
+        (self.prev_element.clone(), self.prev_original.clone())
     }
 
     /// As `set_prev_element()`, with the element as written in the document (which
@@ -617,6 +684,7 @@ impl TransformerContext {
     pub fn set_prev_element_from(&mut self, el: &SvgElement, original: &SvgElement) {
         self.prev_element = Some(el.clone());
         self.prev_original = Some(original.clone());
+        self.prev_count += 1;
     }
 
     pub fn update_element(&mut self, el: &SvgElement) {
